@@ -72,15 +72,14 @@ impl Clock {
 
 impl<S: Shape> MAnim<S> {
     /// The f32 times an implementation may legitimately hand to the timeline for the time spent in the current
-    /// state: exactly one when the clock is exact, otherwise every f32 within float rounding (2 ulp plus one
-    /// nanosecond per advance) of the nanosecond-accumulated and of the real-number time.
+    /// state: every f32 within float rounding of it. Even where the clock is exact the library's own
+    /// `Duration::as_secs_f32` (seconds + nanos/1e9, two roundings) can be one ulp off the exact time (e.g.
+    /// 9/64 s), so the two f32 neighbours on each side are always candidates; where the step sums are inexact
+    /// the range also spans the nanosecond-accumulated and the real-number time plus one nanosecond per advance.
     pub fn candidate_times(&self) -> Vec<f32> {
         let tm = self.t.as_secs_f32();
-        if self.clock.exact {
-            return vec![tm];
-        }
-        let tt = self.clock.t_true as f32;
-        let slack = (self.clock.n_adv as f64 * 1.0e-9) as f32;
+        let tt = if self.clock.exact { self.t.as_secs_f64() as f32 } else { self.clock.t_true as f32 };
+        let slack = if self.clock.exact { 0.0 } else { (self.clock.n_adv as f64 * 1.0e-9) as f32 };
         let (mut lo, mut hi) = (tm.min(tt) - slack, tm.max(tt) + slack);
         for _ in 0..2 {
             lo = crate::util::next_down(lo);
@@ -198,7 +197,8 @@ impl<S: Shape> MAnim<S> {
                 // total is then one ulp off the exact one) and the time itself is exact
                 let slack = 2.0 * ulp32(total as f32) as f64 + self.clock.n_adv as f64 * 1.0e-9;
                 let near = (t as f64 - total).abs() <= slack || (!self.clock.exact && (self.clock.t_true - total).abs() <= slack);
-                near && (!self.clock.exact || t as f64 != total || !self.spec.total_is_exact_in_f32(self.state))
+                // ... and its f32 reading is exact (`as_secs_f32` rounds twice and can be one ulp off)
+                near && (!self.clock.exact || t as f64 != total || t as f64 != self.t.as_secs_f64() || !self.spec.total_is_exact_in_f32(self.state))
             }
             _ => false,
         }
